@@ -69,6 +69,7 @@ func driveC01(t *testing.T, out *vEmitter) {
 	vC01BearerSequence(t, out)
 	vC01StaleCredential(t, out)
 	vC01RefreshedIdentity(t, out)
+	vC01SessionGoneUnderLock(t, out)
 	vKeys()
 	htp := vWriteFile("c01-htpasswd", "htuser:{SHA}"+vB64Std(vSHA1([]byte("htpass")))+"\n")
 	variants := []vC01Variant{
@@ -738,6 +739,57 @@ func vC01RefreshedIdentity(t *testing.T, out *vEmitter) {
 		}
 		if served == 0 {
 			out.Violation("control/refreshed-member-never-served", "the member whose refreshed token still carries the allowed group was never served: the sweep checks nothing", map[string]interface{}{"redis": redis})
+		}
+	}
+}
+
+// vC01SessionGoneUnderLock: a stored session due for refresh is removed from the store (sign-out, revocation by the
+// operator, its lifetime running out) between a request's first load and the reload it does once it holds the refresh
+// lock.  The credential no longer exists: the request discloses nothing on any endpoint, whatever the provider would
+// have answered to a refresh, and the entry is not written back.
+func vC01SessionGoneUnderLock(t *testing.T, out *vEmitter) {
+	vKeys()
+	e := vNewEnv(t, vEnvCfg{oidc: true, redis: true, mod: func(o *options.Options) {
+		o.Cookie.Refresh = time.Hour
+		o.Providers[0].OIDCConfig.InsecureSkipNonce = true
+	}})
+	for _, kind := range []vFault{vMissing, vErrBefore} {
+		for _, hasRT := range []bool{true, false} {
+			for _, target := range []string{"/page", "/oauth2/auth", "/oauth2/userinfo"} {
+				b := e.newBrowser("https://app.example.com")
+				s := b.seedSession("user@example.com", 2*time.Hour, 20)
+				if !hasRT {
+					s.RefreshToken = ""
+					vReseed(b, s)
+				}
+				e.idp.refreshTo("user@example.com", 20)
+				e.redis.ResetOps()
+				e.redis.mu.Lock()
+				e.redis.faults[2] = kind // operations of the request: 0 load, 1 obtain the lock, 2 reload
+				e.redis.mu.Unlock()
+				r := b.get(target)
+				ops := e.redis.Ops()
+				e.redis.ResetOps()
+				wrote := false
+				var kinds []string
+				for _, op := range ops {
+					kinds = append(kinds, op.Kind)
+					if op.Kind == "set" {
+						wrote = true
+					}
+				}
+				disclosed := r.Hit() || r.Status == 202 || (r.Status == 200 && strings.Contains(r.Body, "\"email\""))
+				out.Obs("session-gone-under-lock", true, vL(vS(vFaultNames[kind]), vBool(hasRT), vS(target), vI(int64(r.Status)), vBool(disclosed), vBool(wrote)))
+				out.Stat("session_gone_under_lock_requests", 1)
+				if len(ops) < 3 || ops[2].Kind != "get" {
+					out.Violation("control/reload-not-third-operation", "the reload under the lock is not the request's third store operation: the fault was not placed on it", map[string]interface{}{"ops": kinds})
+					continue
+				}
+				if disclosed || wrote {
+					out.Violation("access/disclosure-without-credential", "a request was forwarded upstream, answered 202 or given user info (or its session written back) although the stored session was gone when the request reloaded it under the refresh lock",
+						map[string]interface{}{"credential": "stored session removed between load and reload (" + vFaultNames[kind] + ")", "has_refresh_token": hasRT, "target": target, "status": r.Status, "written_back": wrote, "store_operations": kinds})
+				}
+			}
 		}
 	}
 }
